@@ -104,6 +104,22 @@ def gen_cases(ctx, n):
         ctx.count(kind)
         ctx.case(key=(kind, key if key is not None else line), sample=dict(kind=kind, input=desc) if rng.random() < 0.01 else None)
 
+    # every ordered pair of Swizzle3D shapes, nested (27 x 27): f must receive x[outer[inner[i]]]
+    import itertools
+    shapes = list(itertools.product(range(3), repeat=3))
+    xyz = (1.25, -2.5, 7.0)
+    for s_in in shapes:
+        for s_out in shapes:
+            rec = Rec()
+            st, res = call(cm.Swizzle3D(cm.Swizzle3D(rec, s_in), s_out), *xyz)
+            want = tuple(xyz[s_out[s_in[i]]] for i in range(3))
+            if not (st == 'ok' and rec.calls and _same(rec.calls[-1], want)):
+                ctx.fail('C13:nested:Swizzle3D>Swizzle3D', 'Swizzle3D(Swizzle3D(f, %r), %r)%r: f got %r, want %r'
+                         % (s_in, s_out, xyz, rec.calls[-1:] if rec.calls else st, want), dict(kind='nested-swizzle', inner=s_in, outer=s_out))
+                break
+    ctx.count('nested-swizzle-pairs', len(shapes) ** 2)
+    ctx.case(key=('nested-swizzle-exhaustive',))
+
     for it in range(n):
         # ---------------- periodic (scalar + vector, 1-3 D) -----------------------------------------------
         p = rnd_period(rng)
@@ -232,6 +248,54 @@ def gen_cases(ctx, n):
             st2, _ = call(cm.Swizzle3D, rec, (0, 1, 3))
             if st2 != 'ValueError':
                 ctx.fail('C13:swizzle3:bad-shape-accepted', 'shape (0,1,3) accepted', {})
+        # ---------------- nested wrappers: the composition must be the composition of the argument maps --------------
+        def _rem(a, p_):
+            if p_ == 0:
+                return a
+            r_ = math.fmod(a, p_)
+            if r_ < 0:
+                r_ += p_
+                if r_ >= p_:
+                    r_ = 0.0
+            return r_
+        depth = rng.randint(2, 3)
+        rec = Rec()
+        w = rec
+        maps = []                                  # innermost first
+        descr = []
+        for _d in range(depth):
+            kind = rng.choice(['swizzle', 'swizzle', 'clamp', 'periodic'])
+            if kind == 'swizzle':
+                sh = tuple(rng.randint(0, 2) for _ in range(3))
+                w = cm.Swizzle3D(w, sh)
+                maps.append((lambda sh: lambda a: tuple(a[i] for i in sh))(sh))
+                descr.append(('Swizzle3D', sh))
+            elif kind == 'clamp':
+                lo = [rng.uniform(-5, 0) for _ in range(3)]
+                hi = [l + rng.uniform(0.5, 5) for l in lo]
+                w = cm.ClampInput3D(w, lo[0], hi[0], lo[1], hi[1], lo[2], hi[2])
+                maps.append((lambda lo, hi: lambda a: tuple(min(max(a[i], lo[i]), hi[i]) for i in range(3)))(lo, hi))
+                descr.append(('ClampInput3D', lo, hi))
+            else:
+                ps3 = [rng.choice([0.0, 1.0, 2.5, 360.0]) for _ in range(3)]
+                if not any(ps3):
+                    ps3[0] = 1.0
+                w = cm.PeriodicTransform3D(w, *ps3)
+                maps.append((lambda ps3: lambda a: tuple(_rem(a[i], ps3[i]) for i in range(3)))(ps3))
+                descr.append(('PeriodicTransform3D', ps3))
+        a0 = (rng.uniform(-8, 8), rng.uniform(-8, 8), rng.uniform(-8, 8))
+        st, res = call(w, *a0)
+        want = a0
+        for m_ in reversed(maps):                  # the outermost wrapper sees the caller's arguments first
+            want = m_(want)
+        ctx.count('nested-depth-%d' % depth)
+        ctx.case(key=('nested', tuple(d[0] for d in descr), tuple(d[1] if d[0] == 'Swizzle3D' else None for d in descr)))
+        if not (st == 'ok' and rec.calls and _same(rec.calls[-1], want)):
+            ctx.fail('C13:nested:' + '>'.join(d[0] for d in reversed(descr)),
+                     'nested wrappers (outermost first) %r at %r: innermost function got %r, composition of the maps gives %r'
+                     % (list(reversed(descr)), a0, rec.calls[-1:] if rec.calls else st, want),
+                     dict(kind='nested', wrappers=list(reversed(descr)), args=a0))
+
         ax = rng.randint(0, 2)
         v = rnd_float(rng)
         rec = Rec()
